@@ -53,7 +53,7 @@ def run(R):
         report(R, viol, cases)
         R.samples = [cases[0], cases[len(cases) // 2], cases[-1]]
         R.coverage.update({"traces_validated_against_impl": total, "input_distribution": json.load(open(os.path.join(out, "dist.json"))),
-                           "rule": "a case is one signed transaction (1-3 messages of 7 kinds) through the real ante handler under a random freeze / whitelist / validator-count / allowed-list configuration; systematic sweeps: kind x position x denomination x weak/healthy; coin sets of 1-3 denominations; freeze matrix; add/remove x blacklist/whitelist proposals with already-listed + new tokens in every order, duplicates, native token, empty list"})
+                           "rule": "a case is one signed transaction (1-3 messages of 7 kinds) through the real ante handler under a random freeze / whitelist / validator-count / allowed-list configuration; systematic sweeps: kind x position x denomination x weak/healthy; coin sets of 1-3 denominations; shared freeze-configuration sweep (switches x both lists empty/token/other/both x native/foreign fee-enabled/foreign not fee-enabled x send/multi-send/custody send/eth/fee); validator count at minimum-1/minimum/minimum+1; configuration written through the real proposal handlers in a third of the cases; add/remove x blacklist/whitelist proposals with already-listed + new tokens in every order, duplicates, native token, empty list"})
     if R.broken and not R.violations:
         for s in range(100, 104):
             o2 = observe(R, 3000, seed=R.seed + s)
